@@ -178,6 +178,9 @@ JudgeDilPlan(c) ==
   IN {
     Cl("C14.outcome", TRUE, c.out \in {"ok", "value"}),
     Cl("C14.complete", ok, shaped),
+    \* the per-column capacities are the caller's: the plan reports them as given (c.vmaxobs = c.vmax above) and leaves the
+    \* caller's table alone
+    Cl("C14.vmaxkept", ok, c.vmaxkept),
     Cl("C14.whole", shaped, PlanWhole(c)),
     Cl("C14.bounds", shaped /\ PlanWhole(c), PlanBounds(c)),
     Cl("C14.budget", shaped /\ PlanWhole(c), PlanBudget(c)),
